@@ -126,6 +126,17 @@ class Scheduler(object):
             others = [t for t in cands if t.name != victim]
             pool = others or cands
             return pool[self.rng.randrange(len(pool))]
+        if kind == "pause-write":
+            # the task that is about to perform the n-th write to a shared table (set / pop / del /
+            # setdefault) is put behind everybody else from there on: the window between two
+            # writes of one task is where a second task finds a half-updated table
+            last = self.events[-1] if self.events else None
+            if last is not None and last[1] in ("tbl.set", "tbl.pop", "tbl.del", "tbl.setdefault") \
+                    and last[0] == me.name:
+                self.writes_seen = getattr(self, "writes_seen", 0) + 1
+                if self.writes_seen == self.policy.get("n", 1):
+                    me.prio = -1.0
+            return max(cands, key=lambda t: (t.prio, self.rng.random()))
         if kind == "pct":
             if self.change_points and self.steps >= self.change_points[0]:
                 self.change_points.pop(0)
